@@ -62,7 +62,9 @@ def shape_key(d, kind, f):
 
 # property -> (label kinds, field predicate)
 def sel_C01(d, kind, f):
-    return kind == 'get' and not is_list(f) and f.get('count') is None
+    # every readable field declared over a contiguous range; an array declared that way counts too (element i is C03's
+    # statement, but "the getter returns exactly the declared bits" is the same obligation)
+    return kind == 'get' and not is_list(f)
 
 
 def sel_C02(d, kind, f):
